@@ -76,6 +76,8 @@ func crashCheck(exp *Expect, before, after Snapshot, ops []Op) []Finding {
 			continue
 		case dst[p] && inplaceOut[p] == nil:
 			continue // pre-existing separate destination: not an input, may be partial
+		case dst[p] && b.Kind == "symlink":
+			continue // the destination path is a link: it holds no content of its own; the file it points to is judged under its own path
 		case inplaceOut[p] != nil || (dst[p] && b.Kind == "file"):
 			// input minified onto itself: original at p, original at p.bak, or complete output at p
 			if ok && a.Kind == "file" && bytes.Equal(a.Data, b.Data) {
@@ -145,6 +147,13 @@ func killRun(bin, work string, c Case, kp killPoint, env ...string) killResult {
 	}
 	logPath := filepath.Join(root, "strace.log")
 	inject := fmt.Sprintf("%s:signal=SIGKILL:when=%d", kp.Syscall, kp.K)
+	failOnly := false
+	if k := strings.IndexByte(kp.Syscall, '!'); k > 0 {
+		// "write!ENOSPC": the call FAILS once instead of the process being killed; the run then ends by itself and the
+		// tree it leaves behind is judged like the tree after a kill ("at no instant is a file's content nowhere on disk")
+		inject = fmt.Sprintf("%s:error=%s:when=%d", kp.Syscall[:k], kp.Syscall[k+1:], kp.K)
+		failOnly = true
+	}
 	_, _, _, err = straceRun(bin, tree, argv, []byte(c.Stdin), logPath, inject, 30*time.Second, env...)
 	if err != nil {
 		kr.err = err
@@ -152,6 +161,9 @@ func killRun(bin, work string, c Case, kp killPoint, env ...string) killResult {
 	}
 	log, _ := os.ReadFile(logPath)
 	calls, killed := parseStrace(log)
+	if failOnly {
+		killed = bytes.Contains(log, []byte("(INJECTED)"))
+	}
 	kr.killed = killed
 	if !killed {
 		return kr
@@ -293,6 +305,10 @@ func runCrash(bin, work string, res *vh.Result) {
 					kps = append(kps, killPoint{n, k})
 				}
 			}
+			var failPoints []killPoint
+			for k := 1; k <= counts["write"] && k <= 12; k++ {
+				failPoints = append(failPoints, killPoint{"write!ENOSPC", k})
+			}
 			if len(kps) > perCaseBudget {
 				// sample evenly
 				var s []killPoint
@@ -302,6 +318,7 @@ func runCrash(bin, work string, res *vh.Result) {
 				kps = s
 				res.Hist("kill_points", "sampled-cases")
 			}
+			kps = append(kps, failPoints...)
 		}
 		for _, kp := range kps {
 			jobsList = append(jobsList, job{i, kp})
